@@ -32,6 +32,8 @@ def enc(v):
 
 
 def val_sx(v):
+    if isinstance(v, tuple):           # ("job", <list>): an immutable wrapper around the mutable object
+        return ["s", 1000] + enc(v[1])
     return ["s"] + enc(v)
 
 
@@ -72,7 +74,12 @@ def gen(rng, tier, shape=None):
                 evs.append(["op", s, rng.randrange(nobj)])
         tests.append(evs)
     flags = sorted(c for c in common.CATS if rng.random() < 0.5)
-    return {"objs": objs, "nested": nested, "sites": sites, "tests": tests, "flags": flags, "approved": list(flags)}
+    wrap = rng.random() < 0.35
+    if wrap:
+        for s_ in sites:
+            if s_["old"] is not None:
+                s_["old"] = [("job", v) for v in s_["old"]] if s_["role"] == "in" else ("job", s_["old"])
+    return {"objs": objs, "nested": nested, "sites": sites, "tests": tests, "flags": flags, "approved": list(flags), "wrap": wrap}
 
 
 OPSRC = {"eq": "{x} == {s}", "ge": "{x} <= {s}", "le": "{x} >= {s}", "in": "{x} in {s}"}
@@ -122,8 +129,11 @@ def render(case):
             else:
                 _, s, k = ev
                 role = case["sites"][s]["role"]
-                lines.append("    rec(lambda: " + OPSRC[role].format(x=f"O{k}", s=f"site{s}()") + ")")
+                xsrc = f'("job", O{k})' if case.get("wrap") else f"O{k}"
+                lines.append("    rec(lambda: " + OPSRC[role].format(x=xsrc, s=f"site{s}()") + ")")
                 now = copy.deepcopy(heap[k])
+                if case.get("wrap"):
+                    now = ("job", now)
                 observed.setdefault(s, []).append(now)
                 old = case["sites"][s]["old"]
                 if old is None:
